@@ -414,6 +414,42 @@ func init() {
 	reg("ext:internal/bytealg.IndexByte", func(p *Path, fn *ssa.Function, a []Value) Value {
 		return p.indexByte(sliceTerms(a[0].(SliceV)), a[1].(*Term))
 	})
+	count := func(p *Path, bs []*Term, c *Term) Value {
+		n := 0
+		for _, b := range bs {
+			if p.decide(byteEq(b, c)) {
+				n++
+			}
+		}
+		return mkInt64(int64(n))
+	}
+	reg("ext:internal/bytealg.CountString", func(p *Path, fn *ssa.Function, a []Value) Value {
+		return count(p, strBytes(a[0].(StrV)), a[1].(*Term))
+	})
+	reg("ext:internal/bytealg.Count", func(p *Path, fn *ssa.Function, a []Value) Value {
+		return count(p, sliceTerms(a[0].(SliceV)), a[1].(*Term))
+	})
+	index := func(p *Path, hay, needle []*Term) Value {
+		for i := 0; i+len(needle) <= len(hay); i++ {
+			cs := make([]*Term, len(needle))
+			for j := range needle {
+				cs[j] = byteEq(hay[i+j], needle[j])
+			}
+			if p.decide(tAnd(cs...)) {
+				return mkInt64(int64(i))
+			}
+		}
+		return mkInt64(-1)
+	}
+	reg("ext:internal/bytealg.IndexString", func(p *Path, fn *ssa.Function, a []Value) Value {
+		return index(p, strBytes(a[0].(StrV)), strBytes(a[1].(StrV)))
+	})
+	reg("ext:internal/bytealg.Index", func(p *Path, fn *ssa.Function, a []Value) Value {
+		return index(p, sliceTerms(a[0].(SliceV)), sliceTerms(a[1].(SliceV)))
+	})
+	reg("strings.Index", func(p *Path, fn *ssa.Function, a []Value) Value {
+		return index(p, strBytes(a[0].(StrV)), strBytes(a[1].(StrV)))
+	})
 	reg("bytes.Equal", func(p *Path, fn *ssa.Function, a []Value) Value {
 		x, y := sliceTerms(a[0].(SliceV)), sliceTerms(a[1].(SliceV))
 		if len(x) != len(y) {
